@@ -5,6 +5,7 @@
 #  5. the property's own check (and optional others) is run against it with VERIF_REPO.
 # Usage: tools/seedconfirm.sh <ID> <agent-worktree> <out-dir> [extra check IDs...]
 set -u
+export VERIF_EVIDENCE_DIR=/verif/.build/evidence-scratch
 id="$1"; awt="$2"; out="$3"; shift 3
 extra="$*"
 export GOFLAGS=-mod=mod GOPROXY=off
